@@ -1,0 +1,64 @@
+//go:build verif
+
+// Contracts for package validator, checked by /verif/govc (comment-only; compiled only with -tags verif).
+// Ghost state (declared by the verifier, see /verif/DESIGN.md): chanClosed, evOpen, evNext, evCur describe the
+// caller-supplied event channel; jsonTextValid is the assumed contract of encoding/json (spec/c04.smt2).
+package validator
+
+//@ prelude c04
+
+//@ func dispatchEvent(event e.Event, eventChan *chan e.Event)
+//@   requires [C11:protocol] eventChan != nil ==> (chanClosed == 0 && ite(evIsStart(event.EventType), !evOpen && evStage(event.EventType) == evNext, evOpen && evCur == evStage(event.EventType)))
+//@   ensures [C11:nil] eventChan == nil ==> (chanClosed == old(chanClosed) && evOpen == old(evOpen) && evNext == old(evNext) && evCur == old(evCur))
+//@   ensures [C11:sent] eventChan != nil ==> (chanClosed == old(chanClosed) && evOpen == evIsStart(event.EventType) && evNext == ite(evIsStart(event.EventType), old(evNext), evStage(event.EventType) + 1) && evCur == ite(evIsStart(event.EventType), evStage(event.EventType), old(evCur)))
+
+//@ func CloseEventChan(eventChan *chan e.Event)
+//@   requires [C11:open] eventChan != nil ==> chanClosed == 0
+//@   ensures [C11:closed] eventChan != nil ==> chanClosed == old(chanClosed) + 1
+//@   ensures [C11:nil] eventChan == nil ==> chanClosed == old(chanClosed)
+
+//@ func GenerateRego(profileText string, debug bool, eventChan *chan e.Event) (*generator.RegoUnit, error)
+//@   requires [C11:fresh] eventChan != nil ==> (chanClosed == 0 && !evOpen && evNext == 0)
+//@   ensures [C11:stages] eventChan != nil ==> (chanClosed == old(chanClosed) && !evOpen && (result1 == nil ==> evNext == 2) && (result1 != nil ==> evNext == 1))
+
+//@ func CompileRego(regoUnit *generator.RegoUnit, eventChan *chan e.Event) (*rego.PreparedEvalQuery, error)
+//@   requires [C11:after-generation] eventChan != nil ==> (chanClosed == 0 && !evOpen && evNext == 2)
+//@   ensures [C11:stages] eventChan != nil ==> (chanClosed == old(chanClosed) && !evOpen && evNext == 3)
+
+//@ func ProcessProfile(profileText string, debug bool, eventChan *chan e.Event) (*rego.PreparedEvalQuery, error)
+//@   requires [C11:fresh] eventChan != nil ==> (chanClosed == 0 && !evOpen && evNext == 0)
+//@   ensures [C11:stages] eventChan != nil ==> (chanClosed == old(chanClosed) && (result1 == nil ==> !evOpen && evNext == 3))
+
+//@ func ProcessInput(jsonldText string, debug bool, receiver *chan e.Event) (any, error)
+//@   requires [C11:compiled] receiver != nil ==> (chanClosed == 0 && !evOpen && evNext == 3)
+//@   ensures [C11:stages] receiver != nil ==> (chanClosed == old(chanClosed) && (result1 == nil ==> !evOpen && evNext == 5))
+//@   ensures [C04:decode] !jsonTextValid(jsonldText) ==> result1 != nil
+
+//@ func executeValidation(eventChan *chan e.Event, err error, compiledRego rego.PreparedEvalQuery, normalizedInput any) (*rego.ResultSet, error)
+//@   requires [C11:normalized] eventChan != nil ==> (chanClosed == 0 && !evOpen && evNext == 5)
+//@   ensures [C11:stages] eventChan != nil ==> (chanClosed == old(chanClosed) && !evOpen && evNext == 6)
+//@   ensures [C17:nonnil] result0 != nil
+
+//@ func processResult(result *rego.ResultSet, eventChan *chan e.Event, validationConfig c.ValidationConfiguration, reportConfig c.ReportConfiguration) (string, error)
+//@   requires [C11:evaluated] eventChan != nil ==> (chanClosed == 0 && !evOpen && evNext == 6)
+//@   ensures [C11:stages] eventChan != nil ==> (chanClosed == old(chanClosed) && !evOpen && evNext == 7)
+
+//@ func ValidateCompiledWithConfiguration(compiledRegoPtr *rego.PreparedEvalQuery, jsonldText string, debug bool, eventChan *chan e.Event, validationConfig c.ValidationConfiguration, reportConfig c.ReportConfiguration) (string, error)
+//@   requires [C11:compiled] eventChan != nil ==> (chanClosed == 0 && !evOpen && evNext == 3)
+//@   ensures [C11:closed-once] eventChan != nil ==> chanClosed == old(chanClosed) + 1
+//@   ensures [C04:no-verdict] !jsonTextValid(jsonldText) ==> (result1 != nil && result0 == "")
+
+//@ func ValidateWithConfiguration(profileText string, jsonldText string, debug bool, eventChan *chan e.Event, validationConfig c.ValidationConfiguration, reportConfig c.ReportConfiguration) (string, error)
+//@   requires [C11:fresh] eventChan != nil ==> (chanClosed == 0 && !evOpen && evNext == 0)
+//@   ensures [C11:closed-once] eventChan != nil ==> chanClosed == old(chanClosed) + 1
+//@   ensures [C04:no-verdict] !jsonTextValid(jsonldText) ==> (result1 != nil && result0 == "")
+
+//@ func Validate(profileText string, jsonldText string, debug bool, eventChan *chan e.Event) (string, error)
+//@   requires [C11:fresh] eventChan != nil ==> (chanClosed == 0 && !evOpen && evNext == 0)
+//@   ensures [C11:closed-once] eventChan != nil ==> chanClosed == old(chanClosed) + 1
+//@   ensures [C04:no-verdict] !jsonTextValid(jsonldText) ==> (result1 != nil && result0 == "")
+
+//@ func ValidateCompiled(compiledRegoPtr *rego.PreparedEvalQuery, jsonldText string, debug bool, eventChan *chan e.Event) (string, error)
+//@   requires [C11:compiled] eventChan != nil ==> (chanClosed == 0 && !evOpen && evNext == 3)
+//@   ensures [C11:closed-once] eventChan != nil ==> chanClosed == old(chanClosed) + 1
+//@   ensures [C04:no-verdict] !jsonTextValid(jsonldText) ==> (result1 != nil && result0 == "")
